@@ -53,6 +53,7 @@ Verdict(cs) ==
   ELSE IF names[n] # cs.root THEN V13(FALSE, "root-last", "root-last:last-procedure-is-not-the-program", names[n])
   ELSE IF \E i, j \in 1..n : i < j /\ names[i] = names[j] THEN V13(FALSE, "unique", "unique:procedure-twice", "")
   ELSE IF \E i \in 1..(n - 2) : ~StrLt(onames[i], onames[i + 1]) THEN V13(FALSE, "order", "order:dependencies-not-ascending", "")
+  ELSE IF HasPlaceholder(cs.out) THEN V13(FALSE, "placeholder", "placeholder:left-in-output", "")
   ELSE IF badparse # {} THEN V13(TRUE, "unjudged", "bundle-member-does-not-parse", fs[CHOOSE k \in badparse : TRUE].name)
   ELSE IF \E k \in 1..n : RunTargets(fs[k].prog.code) \ ({ names[j] : j \in 1..n } \cup SystemModules) # {} THEN
        LET k == CHOOSE x \in 1..n : RunTargets(fs[x].prog.code) \ ({ names[j] : j \in 1..n } \cup SystemModules) # {} IN
@@ -62,7 +63,6 @@ Verdict(cs) ==
        LET extra == CHOOSE x \in { names[k] : k \in 1..n } \ Reach(succ, {}, {cs.root}) : TRUE IN
        V13(FALSE, "minimal", "minimal:unreachable-procedure-bundled" \o (IF cs.mentions # "" THEN ":name-occurs-in=" \o cs.mentions ELSE ""), extra)
   ELSE IF \E k \in 1..(n - 1) : names[k] \notin libnames THEN V13(FALSE, "library", "library:unknown-procedure", "")
-  ELSE IF HasPlaceholder(cs.out) THEN V13(FALSE, "placeholder", "placeholder:left-in-output", "")
   ELSE IF \E k \in 1..(n - 1) :
             LET L == lib[LibIdx(names[k])]
                 want == NonBlank([i \in 1..(L.last - L.first + 1) |-> Subst(liblines[L.first + i - 1], cs.size)])
